@@ -28,6 +28,7 @@ func init() {
 			{"OPS-COMPOUND", 12, ruleOpsCompound},
 			{"OPS-ASSIGN", 6, ruleOpsAssign},
 			{"OPS-CONVERT", 5, ruleOpsConvert},
+			{"OPS-CONST", 4, ruleOpsConst},
 			{"TAB-CAST", 5, ruleTabCast},
 			{"REP-TYPEDSTORE", 9, ruleRepTypedStore},
 		},
@@ -910,3 +911,97 @@ func ruleRepTypedStore(c *Ctx, r *R) {
 }
 
 func nosp(s string) string { return strings.ReplaceAll(s, " ", "") }
+
+// OPS-CONST: a declared constant without a type is an *untyped* constant wherever it is
+// used later (it adopts the type of the typed operand, of the parameter, of the field...).
+// The ordinary stores give an untyped value the default type int32 the moment it is
+// stored (assign into an empty slot), so compile("const") must store such a constant raw:
+// GLOBALSET with the raw flag, or LOCALSET into a slot pre-typed untyped by LOCALZERO.  A
+// constant declared with a numeric type is cast to it.
+func ruleOpsConst(c *Ctx, r *R) {
+	cs, err := c.compileSwitch()
+	if err != nil {
+		r.undecided("compile", "-", err.Error())
+		return
+	}
+	sc := cs.ByLabel["const"]
+	if sc == nil {
+		r.undecided("const", "-", "no compile-case")
+		return
+	}
+	m := newLayMachine(c)
+	cl, err := m.runCase(cs, "const")
+	if err != nil {
+		r.undecided("const", c.Pos(sc.Clause), err.Error())
+		return
+	}
+	untypedTag, okTag := c.constByName("untypedInt")
+	n := 0
+	for ii, it := range cl.Iters {
+		for ei, ex := range it.Exits {
+			cond := condStrings(ex.St)
+			var ops []string
+			fields := map[string]*T{}
+			for _, a := range ex.Atoms {
+				if a.Ins == nil {
+					continue
+				}
+				op := opName(a.Ins)
+				ops = append(ops, op)
+				if b := litField(a.Ins, "B"); b != nil {
+					fields[op+".B"] = b
+				}
+			}
+			shape := strings.Join(ops, " ")
+			typed := strings.Contains(cond, ".Tokens) > 0)") && !strings.Contains(cond, ".Tokens) <= 0)")
+			key := fmt.Sprintf("const iter%d exit%d", ii, ei)
+			n++
+			isConstInt := func(t *T, want int64) bool {
+				if t == nil {
+					return false
+				}
+				k, ok := linOf(t).isConst()
+				return ok && k == want
+			}
+			switch {
+			case typed:
+				numeric := strings.Contains(cond, "Contains(") && !strings.Contains(cond, "!golang.org/x/exp/slices.Contains(") && !strings.Contains(cond, "!slices.Contains(")
+				if numeric {
+					r.check(strings.HasPrefix(shape, "Cast "), key, c.Pos(sc.Clause), "typed numeric constant is cast to its type", "compile(\"const\") does not cast a constant declared with a numeric type to that type (emits "+shape+"): `const f float64 = 1; f/2` is an integer division")
+				} else {
+					r.ok(key, "typed, non-numeric: "+shape)
+				}
+			case shape == "GlobalSet":
+				b := fields["GlobalSet.B"]
+				r.check(b != nil && !isConstInt(b, 0), key, c.Pos(sc.Clause), "untyped global constant stored raw (B != 0)", "compile(\"const\") stores an untyped package-level constant through the ordinary GLOBALSET, which gives it the default type int32: `const k = 100; var u uint8 = 200; u += k` is 300:int32 (Go: 44), `const N = 3; half(N)` with a float64 parameter divides integers")
+			case shape == "LocalZero LocalSet":
+				b := fields["LocalZero.B"]
+				r.check(okTag && isConstInt(b, untypedTag), key, c.Pos(sc.Clause), "untyped local constant: slot pre-typed untyped", "compile(\"const\") does not pre-type the slot of an untyped local constant as untyped (LOCALZERO B = untypedInt): the LOCALSET that follows gives the constant the default type int32")
+			default:
+				r.fail(key, c.Pos(sc.Clause), "compile(\"const\") stores an untyped constant with ["+shape+"], which types it int32 at once: `const k = 100; var u uint8 = 200; u += k` is 300:int32 (Go: 44); a named constant must behave like the literal it stands for")
+			}
+		}
+	}
+	if n < 4 {
+		r.undecided("const", c.Pos(sc.Clause), fmt.Sprintf("only %d store shapes found", n))
+	}
+	// the raw flag must mean raw in the handler
+	hm, err := newHndMachine(c)
+	if err != nil {
+		r.undecided("GLOBALSET", "-", err.Error())
+		return
+	}
+	if ps, err := hm.single("codeGlobalSet"); err == nil {
+		raw := false
+		for _, p := range ps {
+			cs := strings.Join(p.Conds, " && ")
+			calls := strings.Join(p.Calls, "; ")
+			if strings.Contains(cs, "I.B != 0") && strings.Contains(calls, "lookup.Write(v.globals, int(I.A), Top1)") && !strings.Contains(calls, "lookup.Assign") {
+				raw = true
+			}
+		}
+		r.check(raw, "GLOBALSET raw", "-", "B != 0 writes the value unchanged", "the GLOBALSET handler has no raw-store path for constants (B != 0 → globals.Write)")
+	} else {
+		r.undecided("GLOBALSET", "-", err.Error())
+	}
+}
